@@ -74,6 +74,22 @@ CLAIMED["C24"] = ("jaxpr->SMT (z3) of binary_median_filter / PillarDiscretizatio
                   "bounded SMT verification: the median filter output equals the majority of the odd box under the configured padding for all binary inputs (decided over the real relaxation 0<=x<=1 first); pillar discretisation returns an allowed column that minimises the configured distance for all real inputs in a box",
                   "reals for floats; kernels {1,3,5}; volumes <= 3x3x4; heights <= 4, 2-4 isotropic materials", "4/C24")
 
+CLAIMED["C38"] = ("jaxpr->SMT (z3) of the same scene placed under UniformGrid, explicit RectilinearGrid and QuasiUniformGrid",
+                  "bounded SMT verification: for all initial fields the final fields and all detector records of the three placements agree (exactly: all differences simplify to 0)",
+                  "reals for floats; T <= 5; even shapes (QuasiUniformGrid requires them); PML/PEC/PMC/periodic/Bloch faces", "4/C38")
+CLAIMED["C26"] = ("concolic execution (pysym+z3) of resolve_object_constraints on constraint-graph templates with symbolic margins, offsets, proportions, coordinates",
+                  "bounded SMT verification: on every successful path of the real resolver each clause (inside volume, positive size, declared shapes, grid/real coordinates, position/size/extension constraints with nearest-admissible-interval snapping, unconstrained axes span the volume) holds for all values of the symbolic parameters; over-determined systems must fail",
+                  "reals for floats; 28-47 templates over <= 4 objects, one active axis of 6-8 cells; uniform + one dyadic non-uniform grid", "4/C26")
+CLAIMED["C27"] = ("concolic execution (pysym+z3) of resolve_object_constraints re-run on permutations of the object and constraint lists inside one path exploration",
+                  "bounded SMT verification: for all parameter values every permuted run agrees with the reference run on success and on every resolved slice",
+                  "reals for floats; all permutations up to 12 (quick) / 48 (thorough), structured subset beyond; templates of C26", "4/C27")
+CLAIMED["C28"] = ("concolic execution (pysym+z3) of _init_arrays with every placement_order symbolic; tier predicates with symbolic tensor entries",
+                  "bounded SMT verification: for all integer placement orders each cell of the four material arrays carries the value of the painter's-rule winner (highest order, later list position breaks ties, volume lowest); component counts and the scalar permeability of non-magnetic scenes; all_objects_* predicates equal the exact tier for all symbolic tensor entries",
+                  "box geometry enumerated (9 geometries, +100 interval pairs thorough), material values concrete in the painting part; orders in (-1000,1000)", "4/C28")
+CLAIMED["C29"] = ("concolic execution (pysym+z3) of check_overlap with all 12 slice bounds symbolic; jaxpr->SMT of apply_params with symbolic device parameters",
+                  "bounded SMT verification: boxes that share a cell => check_overlap is True for all integer bounds (64 per-axis relation classes); for a representative pair per class the source's cached material state equals the post-device arrays for every parameter value",
+                  "mode/plane sources, detectors' (material-independent) state and dispersive devices out of scope", "4/C29")
+
 NOT_APPLICABLE = {
     "C12": "numerical accuracy bound (1e-6 residual energy after >=1e3 steps on >=40^3 cells in floating point); no algebraic identity, far beyond any bounded real-arithmetic encoding",
     "C13": "1e-3 power-ratio bound after hundreds of steps (TFSF leakage is small but non-zero by design); not an identity, out of reach for bounded real arithmetic",
